@@ -372,6 +372,9 @@ var (
 
 // Solve writes the query text to a file and races the installed solvers on it.
 // The text must contain a (check-sat) and may contain (get-model) after it.
+// agreeMode (thorough tier): every solver runs to completion and definite answers must agree.
+var agreeMode bool
+
 func Solve(name, text string, timeoutS int, needCvc5 bool) SolverResult {
 	h := sha256.Sum256([]byte(text))
 	key := hex.EncodeToString(h[:8])
@@ -439,6 +442,20 @@ func Solve(name, text string, timeoutS int, needCvc5 bool) SolverResult {
 	for i := 0; i < n; i++ {
 		r := <-ch
 		if r.Status == "unsat" || r.Status == "sat" {
+			if agreeMode {
+				if got && last.Status != r.Status {
+					last = SolverResult{Status: "error", Solver: last.Solver + " vs " + r.Solver, Output: "solvers disagree: " + last.Solver + " says " + last.Status + ", " + r.Solver + " says " + r.Status, File: file}
+					cancel()
+					break
+				}
+				if !got {
+					last = r
+				} else {
+					last.Solver += "+" + r.Solver
+				}
+				got = true
+				continue
+			}
 			cancel()
 			last = r
 			got = true
